@@ -32,6 +32,14 @@ def main():
             import numpy as _np
             for b in (B if isinstance(B, tuple) else (B,)):
                 type(b).flavours = _np.random.default_rng([seed, 4242, shard.get("salt", 0)])
+        if shard.get("dtypes"):
+            import numpy as _np
+            backends.NP.dtypes = _np.random.default_rng([seed, 777, shard.get("salt", 0)])
+            rec.lenient = True
+            if env.mode() == "jit":
+                pool = [t for t in backends.NP.DTYPES if t is not _np.int64]
+                backends.NP.DTYPES = (pool[(seed + shard.get("salt", 0)) % len(pool)], _np.int64)
+            rec.note("element_types", [_np.dtype(t).name for t in backends.NP.DTYPES])
         hooks = []
         if not shard.get("no_hooks"):
             for b in (B if isinstance(B, tuple) else (B,)):
@@ -40,13 +48,17 @@ def main():
         t0 = time.time()
         mod.run(shard, rec, B)
         rec.note("workload_s", time.time() - t0)
-        if shard.get("forms"):
+        if shard.get("forms") or shard.get("dtypes"):
             rec.note("array_forms_handed_to_library", {"np": dict(backends.NP.flavour_counts), "torch": dict(backends.TORCH.flavour_counts)})
     except BaseException as e:
         tb = traceback.extract_tb(e.__traceback__)
         repo = os.path.realpath(os.environ.get("VP_REPO", "/repo")) + os.sep
         inner = tb[-1] if tb else None
-        if inner is not None and os.path.realpath(inner.filename).startswith(repo) and isinstance(e, Exception):
+        if getattr(rec, "lenient", False) and isinstance(e, Exception):
+            # element-type shard: the library may refuse a type it does not support; only answers are judged
+            rec.refusal("uncaught.%s" % type(e).__name__)
+            rec.note("shard_ended_by_refusal", "%s: %s" % (type(e).__name__, str(e)[:200]))
+        elif inner is not None and os.path.realpath(inner.filename).startswith(repo) and isinstance(e, Exception):
             # the library itself raised on a well-formed input outside a guarded call: that is an observation
             # about the library (the property promises a result), and the rest of this shard is lost
             where = ["%s:%d %s" % (os.path.basename(f.filename), f.lineno, f.name) for f in tb[-4:]]
